@@ -145,8 +145,12 @@ func (s *ServerDnsListener) closeConnection(u *userConnection) error {
 	s.usersLock.Lock()
 	defer s.usersLock.Unlock()
 
-	_, err := s.validateAndGetUser(u.UserId, u.remoteAddress)
-	if err == commands.BadUser {
+	current, err := s.validateAndGetUser(u.UserId, u.remoteAddress)
+	if err == nil && current != u {
+		// The slot has been reused by a newer session (from the same address): leave it alone
+		u.closed = true
+		return nil
+	} else if err == commands.BadUser {
 		// Connection already closed
 		return nil
 	} else if err == commands.BadIp {
